@@ -149,6 +149,13 @@ def make_plan(seed: int, tier: str, index: int) -> dict[str, Any]:
             op["fname"] = p.choice(FILE_NAMES)
         if acc["via"] == "path" and p.random() < 0.12:
             op["special_file"] = True  # a FIFO / pipe / procfs-style file: stat says size 0
+        if acc.get("reader") == "simtext" and p.random() < 0.4:
+            # the caller's reader fails once (a pipe interrupted, a non-blocking source not
+            # ready) after it has already consumed nothing / a little / whole sections
+            starts = [i + 1 for i, ch in enumerate(text[:-1]) if ch in "\n" and text[i + 1] == "["]
+            op["reader_fault"] = {"at": 1, "exc": p.choice(["InterruptedError", "BlockingIOError", "TimeoutError",
+                                                            "OSError"]),
+                                  "consume": p.choice([0, 3] + starts + starts)}
         if acc["via"] == "path" or acc.get("reader") in ("textio", "codecs", "simtext"):
             if sub == "eio" and acc.get("reader") != "simtext" and f.random() < 0.6:
                 op["io"] = {"reads": [f.choice([1, 16, 64, 4096])], "eio_at": f.randint(1, 5)}
@@ -348,14 +355,25 @@ def execute(plan: dict[str, Any]) -> dict[str, Any]:
                 sched.begin_op(client, k, op.get("abort"))
                 chart = None
                 err: BaseException | None = None
+                op_rt = op
+                if op.get("reader_fault"):
+                    from detsim.sched import make_abort_exc
+
+                    op_rt = {**op, "reader_fault": {**op["reader_fault"],
+                                                    "exc_obj": make_abort_exc(op["reader_fault"]["exc"])}}
                 try:
-                    chart = parseop.do_parse(fs, op, data, f"v{vi}")
+                    chart = parseop.do_parse(fs, op_rt, data, f"v{vi}")
                 except HarnessError:
                     raise
                 except BaseException as e:  # noqa: BLE001
                     err = e
                 sched.end_op(client)
                 aborted = client.abort_fired_at is not None
+                rd = (op_rt.get("reader_fault") or {}).get("reader")
+                if rd is not None and rd.fault_fired:
+                    fired["reader_raises_after_consuming"] = fired.get("reader_raises_after_consuming", 0) + 1
+                    if err is not None:
+                        continue  # may fail ... (a chart that is returned is judged like any other)
                 with sched.atomic(client):
                     if aborted:
                         fired["abort_in_section_parse"] = fired.get("abort_in_section_parse", 0) + 1
